@@ -1,7 +1,8 @@
 ----------------------------- MODULE PlanRules -----------------------------
 (* C11 / C12 - what a planner's answer has to satisfy, over one planner call. *)
 (*                                                                            *)
-(* instance I = [policy, enforce, now, grid, horizon, workers, tasks]         *)
+(* instance I = [policy, enforce, now, grid, horizon, workers, step,          *)
+(*               batching, tasks]                                            *)
 (*   policy  : "ILP" (task by task), "ILP_RTG" (release_taskgraphs), "TSG"     *)
 (*             (TetriSched-Gurobi), "TSC" (TetriSched-CPLEX), "Z3", "EDF",     *)
 (*             "FIFO", "CW" (Clockwork)                                        *)
@@ -9,10 +10,18 @@
 (*   grid    : time discretisation (1 unless TetriSched)                      *)
 (*   horizon : last start time the enumeration / the pool projection looks at  *)
 (*   workers : sequence of capacities (one resource name)                     *)
+(*   step    : 1, or i > 1 for the i-th invocation of one scheduler object in  *)
+(*             a multi-invocation scenario (the earlier answers were applied   *)
+(*             to the tasks / workers the way the Simulator does; the          *)
+(*             instance is the state at invocation i)                          *)
+(*   batching: the policy batches tasks of one work profile (ILP, TSC)         *)
 (*   tasks   : sequence in topological order (parents have smaller indices) of *)
-(*     [state   : "REL" | "VIRT" | "RUN" | "SCHED" | "DONE",                   *)
+(*     [state   : "REL" | "VIRT" | "RUN" | "SCHED" | "DONE" | "CANC",          *)
 (*      release, deadline,                                                    *)
-(*      strats  : sequence of [dem, rt],                                      *)
+(*      strats  : sequence of [dem, rt, bs]; bs > 1: the strategy runs a      *)
+(*                batch of bs tasks of the profile together (one demand, one  *)
+(*                runtime, same worker and start for all members),            *)
+(*      prof    : 0, or the number of the work profile shared with others,     *)
 (*      parents : sequence of task indices,                                   *)
 (*      fin     : expected finish of a RUN (now + remaining) / SCHED (planned  *)
 (*                start + chosen runtime) task, completion time of a DONE one, *)
@@ -78,6 +87,7 @@ Parents(I, t) == {I.tasks[t].parents[i] : i \in 1..Len(I.tasks[t].parents)}
 StratIds(I, t) == 1..Len(I.tasks[t].strats)
 Rt(I, t, k)   == I.tasks[t].strats[k].rt
 Dem(I, t, k)  == I.tasks[t].strats[k].dem
+Bs(I, t, k)   == I.tasks[t].strats[k].bs
 FastestRt(I, t) == SetMin({Rt(I, t, k) : k \in StratIds(I, t)})
 SlowestRt(I, t) == SetMax({Rt(I, t, k) : k \in StratIds(I, t)})
 
@@ -97,9 +107,10 @@ Decided(d, t) == d[t].kind # "none"
 WellFormedInst(I) ==
     /\ Len(I.tasks) >= 1 /\ Len(I.workers) >= 1 /\ I.grid >= 1
     /\ \A t \in TaskIds(I) :
-          /\ I.tasks[t].state \in {"REL", "VIRT", "RUN", "SCHED", "DONE"}
+          /\ I.tasks[t].state \in {"REL", "VIRT", "RUN", "SCHED", "DONE", "CANC"}
           /\ Len(I.tasks[t].strats) >= 1
-          /\ \A k \in StratIds(I, t) : Rt(I, t, k) >= 1 /\ Dem(I, t, k) >= 0
+          /\ \A k \in StratIds(I, t) : Rt(I, t, k) >= 1 /\ Dem(I, t, k) >= 0 /\ Bs(I, t, k) >= 1
+          /\ I.tasks[t].prof >= 0
           /\ \A p \in Parents(I, t) : p \in 1..(t - 1)
           /\ I.tasks[t].state \in {"RUN", "SCHED"} =>
                 /\ I.tasks[t].cur.w \in 1..Len(I.workers)
@@ -189,7 +200,8 @@ Options(I, t) ==
     ELSE (IF I.tasks[t].must THEN {} ELSE {Unplaced})
          \cup {Place(w, s, k) : w \in {v \in 1..Len(I.workers) : \E k \in StratIds(I, t) : Compatible(I, t, v, k)},
                                 s \in StartDom(I, t),
-                                k \in StratIds(I, t)}
+                                \* batching: a SCHEDULED batch is re-planned with the strategy it was planned with
+                                k \in (IF I.batching /\ I.tasks[t].must THEN {I.tasks[t].cur.k} ELSE StratIds(I, t))}
 
 OptionOK(I, t, o) == o.kind = "place" => Compatible(I, t, o.w, o.k)
 
@@ -204,6 +216,28 @@ ORt(I, d, t) ==
     ELSE IF Conv(I.policy).runRt = "full" THEN Rt(I, t, I.tasks[t].cur.k) ELSE I.tasks[t].fin - I.now
 OD(I, d, t) == Dem(I, t, OStrat(I, d, t))
 
+\* batching: tasks of one work profile placed with the same strategy of batch size > 1 on the
+\* same worker at the same time are one batch: one demand, one runtime
+SameBatch(I, d, u, v) ==
+    /\ I.batching /\ I.tasks[u].prof # 0 /\ I.tasks[u].prof = I.tasks[v].prof
+    /\ OStrat(I, d, u) = OStrat(I, d, v) /\ Bs(I, u, OStrat(I, d, u)) > 1
+    /\ OW(I, d, u) = OW(I, d, v) /\ OS(I, d, u) = OS(I, d, v)
+\* one representative per batch (every task that is in no batch represents itself)
+OccR(I, d) ==
+    IF ~I.batching THEN Occ(I, d)
+    ELSE LET O == Occ(I, d) IN {t \in O : \A u \in O : SameBatch(I, d, u, t) => u >= t}
+
+BatchGroup(I, d, t) ==
+    {u \in Dom(d) : Placed(d, u) /\ I.tasks[u].prof = I.tasks[t].prof
+                      /\ d[u].w = d[t].w /\ d[u].s = d[t].s /\ d[u].k = d[t].k}
+BatchedTasks(I, d) == {t \in Dom(d) : Placed(d, t) /\ Bs(I, t, d[t].k) > 1}
+\* a strategy of batch size b runs exactly b tasks of the profile together (a prefix of a plan: at most b)
+BatchPartial(I, d) ==
+    I.batching => \A t \in BatchedTasks(I, d) :
+        I.tasks[t].prof # 0 /\ Cardinality(BatchGroup(I, d, t)) <= Bs(I, t, d[t].k)
+BatchComplete(I, d) ==
+    I.batching => \A t \in BatchedTasks(I, d) : Cardinality(BatchGroup(I, d, t)) = Bs(I, t, d[t].k)
+
 Conflict(I, d, u, v) ==
     LET sep == Conv(I.policy).sep
     IN  ~(OS(I, d, u) >= OS(I, d, v) + ORt(I, d, v) + sep \/ OS(I, d, v) >= OS(I, d, u) + ORt(I, d, u) + sep)
@@ -211,14 +245,14 @@ Conflict(I, d, u, v) ==
 \* ILP / Z3: per task, its demand plus that of every non-dependent task on the
 \* same worker whose occupancy conflicts with it
 CapPairwise(I, d) ==
-    LET O == Occ(I, d)
+    LET O == OccR(I, d)
     IN  \A u \in O :
            LET S == {v \in O \ {u} : OW(I, d, v) = OW(I, d, u) /\ ~Dependent(I, u, v) /\ Conflict(I, d, u, v)}
            IN  OD(I, d, u) + SumOver(S, [v \in S |-> OD(I, d, v)]) <= I.workers[OW(I, d, u)]
 
 \* TetriSched: per worker and slot of the grid, start <= slot < start + rt
 CapSlots(I, d) ==
-    LET O == Occ(I, d)
+    LET O == OccR(I, d)
         slots == {s \in I.now..(I.horizon + 8) : (s - I.now) % I.grid = 0}
     IN  \A w \in 1..Len(I.workers) : \A tau \in slots :
            LET S == {u \in O : OW(I, d, u) = w /\ OS(I, d, u) <= tau /\ tau < OS(I, d, u) + ORt(I, d, u)}
@@ -265,6 +299,7 @@ MustPlaced(I, d) == \A t \in Dom(d) : I.tasks[t].must => Placed(d, t)
 OtherRules(rule, I, d) ==
     /\ \A t \in Dom(d) : OptionOK(I, t, d[t])
     /\ MustPlaced(I, d)
+    /\ BatchPartial(I, d)
     /\ CapacityOK(I, d)
     /\ AllParentsInModel(I, d)
     /\ rule # "precedence" =>
@@ -280,7 +315,8 @@ Margin(rule, I, d) == IF rule = "precedence" THEN PrecMargin(I, d) ELSE Deadline
 
 \* PlansViolatingOnly(rule): the complete plans of instance I inside its horizon that
 \* satisfy every rule of the policy's decision space except `rule`, which they break
-IsViolatingOnly(rule, I, d) == Len(d) = Len(I.tasks) /\ OtherRules(rule, I, d) /\ Breaks(rule, I, d)
+IsViolatingOnly(rule, I, d) ==
+    Len(d) = Len(I.tasks) /\ OtherRules(rule, I, d) /\ BatchComplete(I, d) /\ Breaks(rule, I, d)
 PlansViolatingOnly(rule, I) ==
     {d \in [1..Len(I.tasks) -> UNION {Options(I, t) : t \in TaskIds(I)}] :
         (\A t \in TaskIds(I) : d[t] \in Options(I, t)) /\ IsViolatingOnly(rule, I, Tup(d))}
@@ -288,7 +324,7 @@ PlansViolatingOnly(rule, I) ==
 -----------------------------------------------------------------------------
 (* vacuity counters (TLC registers, single worker) *)
 Bump(r, cond) == IF cond THEN TLCSet(r, TLCGet(r) + 1) ELSE TRUE
-NStats == 12
+NStats == 21
 StatsLine == PrintT("@@stats " \o ToString([r \in 1..NStats |-> TLCGet(r)]))
 
 Stats(I, d) ==
@@ -304,6 +340,18 @@ Stats(I, d) ==
     /\ Bump(10, \E t \in Dom(d) : (I.tasks[t].offered \/ Decided(d, t)) /\ I.tasks[t].deadline = I.now + FastestRt(I, t))  \* exactly tight
     /\ Bump(11, \E t \in Dom(d) : Placed(d, t))
     /\ Bump(12, \E t \in Dom(d) : Placed(d, t) /\ d[t].w > 1)
+    \* later invocations of one scheduler object; SCHEDULED tasks planned again; batches
+    /\ Bump(13, \E t \in Dom(d) : I.tasks[t].state = "SCHED" /\ Placed(d, t))
+    /\ Bump(14, \E t \in Dom(d) : I.tasks[t].state = "SCHED" /\ Placed(d, t)
+                                   /\ <<d[t].w, d[t].s, d[t].k>> # <<I.tasks[t].cur.w, I.tasks[t].cur.s, I.tasks[t].cur.k>>)
+    /\ Bump(15, BatchedTasks(I, d) # {})
+    /\ Bump(16, \E t \in BatchedTasks(I, d) : \E u \in BatchGroup(I, d, t) : I.tasks[u].deadline # I.tasks[t].deadline)
+    /\ Bump(17, I.step > 1)
+    /\ Bump(18, \E t \in Dom(d) : I.tasks[t].state = "SCHED" /\ Placed(d, t) /\ d[t].s + Rt(I, t, d[t].k) = I.tasks[t].deadline)
+    \* the boundary cases again, at a later invocation
+    /\ Bump(19, I.step > 1 /\ Hopeless(I, d) # {})
+    /\ Bump(20, I.step > 1 /\ \E t \in Dom(d) : (I.tasks[t].offered \/ Decided(d, t)) /\ I.tasks[t].deadline = I.now + FastestRt(I, t))
+    /\ Bump(21, I.step > 1 /\ \E t \in Dom(d) : Placed(d, t) /\ d[t].s + Rt(I, t, d[t].k) = I.tasks[t].deadline)
 
 -----------------------------------------------------------------------------
 (* T: call records.  Every failing clause of every record is printed          *)
@@ -361,12 +409,14 @@ Compact(d) == Tup([t \in 1..Len(d) |->
 \* always true; prints every member of PlansViolatingOnly once (plans are distinct states)
 EnumEmit ==
     LET I == TheInsts[idx]
-    IN  (Len(plan) = Len(I.tasks) /\ Breaks(Rule, I, plan)) =>
+    IN  (Len(plan) = Len(I.tasks) /\ BatchComplete(I, plan) /\ Breaks(Rule, I, plan)) =>
             /\ PrintT("@@plan " \o ToString(<<idx, Margin(Rule, I, plan), Compact(plan)>>))
             /\ Bump(1, TRUE)
 
-\* sanity of the incremental enumeration against the set definition (small instances only)
-EnumAgrees ==
-    \A i \in 1..NInsts :
+\* sanity of the incremental enumeration against the set definition (small instances only).
+\* It has a parameter on purpose: TLC evaluates every constant-level definition WITHOUT parameters
+\* when it starts, i.e. it would compute the brute-force sets of every enumeration run.
+EnumAgrees(n) ==
+    \A i \in 1..n :
         PrintT("@@count " \o ToString(<<i, Cardinality(PlansViolatingOnly(Rule, TheInsts[i]))>>))
 =============================================================================
